@@ -135,6 +135,15 @@ CHECKS['C15'] = dict(
     design_ref='DESIGN.md 4/C15',
     note='Trusted: MIR = code; planted decoder results; base64 encode as an opaque piece. Outside (third-party, not encoded): the decoders themselves and base64; YAML anchors, merge keys, tags, non-string keys; empty files.',
     technique='symbolic execution of rustc MIR over symbolically chosen serde value trees with symbolic numbers; z3 decides isomorphism and integer/float classification (bounded: depth, children)')
+CHECKS['C11'] = dict(
+    category='model_checking',
+    text='The real tokenizer (tokenize, token alternation, escapequoted, comment/whitespace handling) over the real OffsetStrIter and abortable_parser\'s StrIter, all from MIR. (1) inputs of 2..3 symbolic bytes over the 14 operator '
+         'characters: on every path z3 enumerates every byte assignment consistent with the path condition and the token boundaries and positions must be those of a longest-match lexer over the documented operators (all 14^2 + 14^3 '
+         'inputs are covered by 2.5k paths); (2) string literals of 1..2/3 symbolic ASCII bytes (any value: backslash, quote, control characters): z3 decides that the value equals the reference decoding; concrete 2/3/4-byte UTF-8 scalars '
+         'must survive byte for byte; (3) every ordered pair of vocabulary tokens under 8 separators (none, blank, tab, LF, CRLF, blank line, comments): same token sequence for all, and (line, column, offset) equal the position computed from the prefix.',
+    design_ref='DESIGN.md 4/C11',
+    note='Trusted: MIR = code; std builtins. Outside: sequences of 40 tokens, arbitrary Unicode beyond the listed scalars, the parser on the token stream.',
+    technique='symbolic execution of rustc MIR on symbolic bytes; per path all consistent byte assignments enumerated by z3 (blocking clauses) against longest-match / escape-decoding oracles; native replay (bounded: bytes, token pairs)')
 NOT_APPLICABLE = {
 }
 ALL = ['C%02d' % i for i in range(1, 21)]
